@@ -318,6 +318,7 @@ func main() {
 
 	// ---- aggregate
 	states, evals, classes, buildFailed := map[string]int{}, map[string]int{}, map[string]int{}, map[string]int{}
+	spelledEvals, totSpelled := map[string]int{}, 0
 	done := map[int]bool{}
 	permDone := 0
 	instances := 0
@@ -339,6 +340,11 @@ func main() {
 
 		for k, v := range s.Classes {
 			classes[k] += v
+		}
+
+		for k, v := range s.Spelled {
+			spelledEvals[k] += v
+			totSpelled += v
 		}
 
 		for k, v := range s.BuildFailed {
@@ -419,9 +425,11 @@ func main() {
 			"rule": "every tree of the universe is materialised with plain calls in a fresh instance of every file system (states) and on tmpfs at the same absolute path; " +
 				"every Glob pattern, ReadDir path and WalkDir (root, callback family, visit index) of the bound is evaluated on both and compared (transitions/evaluations), every accessor of every listed fs.DirEntry included; " +
 				"the name-shape trees (names sharing a prefix and continuing with bytes at the edges of the ASCII, rune-length and byte ranges) are asked the patterns that have these names as literal prefix, and ReadDir/WalkDir/helpers on their own paths, the oracle's byte order of every listing included; " +
+				"every ReadDir directory and WalkDir root that exists (R and the current directory included) and the Glob patterns over the spelled segment alphabet are also asked in every spelling that is not the shortest - leading './' (absolute: '/./' after R), inner '/./', doubled separator, 'x/../' in front (x = first element), trailing separator, trailing '/.' - with the oracle given the same spelling (spelled_evaluations, included in transitions/evaluations); " +
 				"helpers are compared with Stat/ReadDir of the same instance; distinct_nontrivial = distinct (function, oracle result class) classes observed",
 			"samples": samples, "exhaustive": exhaustive, "bound": bound,
 			"states_per_fs": states, "evaluations_per_func": evals, "oracle_result_classes": classes,
+			"evaluations_with_spelled_operand": totSpelled, "spelled_evaluations": spelledEvals,
 			"trees_in_universe": len(trees), "trees_completed": len(done), "workers": n,
 			"mode_trees_in_universe": len(u.modeTrees()), "name_shape_trees_in_universe": len(u.shapeTrees()),
 			"not_materialised": buildFailed, "violation_instances": instances, "violation_signatures": sc,
@@ -432,6 +440,7 @@ func main() {
 			"symbolic-link trees only on file systems that advertise FeatSymlink (MemFS, RoFS(MemFS), FailFS(MemFS)); OrefaFS and BasePathFS get the link-free trees",
 			"BasePathFS has base path R: arguments are translated R/x -> /x and oracle results likewise before comparing; R itself and R/ both map to /",
 			"compared: Glob error class, nil-ness and the ordered list; ReadDir error class, names in order and of every entry Type() bit for bit, IsDir(), Info(): success, mode (type, permission, setuid/setgid/sticky bits), regular-file size, Name(), IsDir(); WalkDir visit sequence (path, type, IsDir, error class), of every visited entry Name() (below the root) and Type() bit for bit, in the walks whose callback never acts (families none, prop) also Info() as for ReadDir, and the returned error class. Not compared with the oracle: the name of the root entry of a walk (it is what Lstat answers for the spelling given), symlink sizes, modification times, nil versus empty ReadDir slices",
+			"spelling dimension: the scratch root R itself is always written in its shortest form (only what follows it is spelled); a spelled operand is asked only if it names for the kernel the very object (Lstat, same device and inode) that its cleaned form names, or neither names anything - for a pattern: its longest leading part without a magic character. Left out thereby (VERIF_C14_SPELL_ALL=1 asks them too): operands whose RESOLUTION differs between the kernel (element by element) and the emulated file systems (lexical cleaning first) - a trailing separator or '/.' or 'x/../' behind a non-directory or a symbolic link, '/.' behind a directory without search permission; that difference belongs to path resolution (C01/C03/C04, KF-C04-001; KF-C14-002 here), not to enumeration. In the quick tier a spelled WalkDir root is walked with the callback that never acts only (thorough: every callback family at every visit index); Glob results that name the same paths in the same order but spell them differently (cleaned versus as written) are accepted, as for the patterns in their shortest form; the paths a walk reports are compared verbatim",
 			"every listed entry is also held to itself and to Lstat of the same path on the same file system: Name/IsDir/Type agree with Info(), IsDir with Type, and Info() name, mode, size, modification time, IsDir equal Lstat's (skipped where Lstat or Info fails, e.g. unsearchable directory)",
 			"name-shape trees: names are byte strings; tmpfs accepts every name of the alphabet (0x7f, U+10FFFF and the byte 0xff, which is not UTF-8, included) and os.ReadDir / filepath.Glob / filepath.WalkDir list them in byte order; these trees hold files and directories only (every file system gets them), with creation modes; patterns without a literal prefix other than * and patterns with empty segments are left to the plain trees; in signatures and replay files bytes outside printable ASCII are written <xx> / <U+XXXX> (replay files carry the exact bytes in *_hex fields)",
 			"mode trees: modes are given with Chmod after creation (not with the perm argument of Mkdir/OpenFile, whose handling of special bits belongs to C01/C03); a tree whose mode the scratch file system does not keep is a harness error; everything is owned by root",
